@@ -81,6 +81,63 @@ fn call(ont: &Ontology, root: u32, leaves: &[u32]) -> Result<Result<Ontology, St
     })
 }
 
+/// C01 on a sub-ontology, stated intrinsically: the reported ancestors are the transitive closure of the reported direct parents,
+/// never the term itself; children are the inverse of parents; child_of / parent_of are membership in that closure.
+pub fn closure_laws(sub: &Ontology) -> Vec<String> {
+    use hpo::annotations::AnnotationId;
+    use std::collections::{BTreeMap, BTreeSet};
+    let mut d = vec![];
+    let terms: Vec<HpoTerm> = sub.iter().collect();
+    let present: BTreeSet<u32> = terms.iter().map(|t| t.id().as_u32()).collect();
+    let parents: BTreeMap<u32, BTreeSet<u32>> = terms.iter().map(|t| (t.id().as_u32(), t.parent_ids().iter().map(|x| x.as_u32()).collect())).collect();
+    let mut closure: BTreeMap<u32, BTreeSet<u32>> = BTreeMap::new();
+    for id in &present {
+        let mut seen: BTreeSet<u32> = BTreeSet::new();
+        let mut todo: Vec<u32> = parents[id].iter().copied().collect();
+        while let Some(x) = todo.pop() {
+            if seen.insert(x) {
+                if let Some(ps) = parents.get(&x) {
+                    todo.extend(ps.iter().copied());
+                }
+            }
+        }
+        closure.insert(*id, seen);
+    }
+    for t in &terms {
+        let id = t.id().as_u32();
+        let all: BTreeSet<u32> = t.all_parent_ids().iter().map(|x| x.as_u32()).collect();
+        if all != closure[&id] {
+            d.push(format!("term {id}: all_parent_ids() = {:?}, but the transitive closure of the direct parents {:?} is {:?}", all, parents[&id], closure[&id]));
+        }
+        let by_iter: BTreeSet<u32> = t.all_parents().map(|x| x.id().as_u32()).collect();
+        if by_iter != closure[&id] {
+            d.push(format!("term {id}: all_parents() iterates {:?}, closure of the direct parents is {:?}", by_iter, closure[&id]));
+        }
+        if let Some(x) = parents[&id].iter().find(|x| !present.contains(x)) {
+            d.push(format!("term {id}: direct parent {x} is not a term of the sub-ontology"));
+        }
+        let kids: BTreeSet<u32> = t.children_ids().iter().map(|x| x.as_u32()).collect();
+        let inv: BTreeSet<u32> = present.iter().copied().filter(|c| parents[c].contains(&id)).collect();
+        if kids != inv {
+            d.push(format!("term {id}: children {:?}, but the terms naming it as parent are {:?}", kids, inv));
+        }
+        for o in &terms {
+            let oid = o.id().as_u32();
+            let want = closure[&id].contains(&oid);
+            if t.child_of(o) != want || o.parent_of(t) != want {
+                d.push(format!("child_of({id}, {oid}) = {}, parent_of({oid}, {id}) = {}, closure membership = {want}", t.child_of(o), o.parent_of(t)));
+            }
+        }
+        if d.len() > 8 {
+            break;
+        }
+    }
+    d
+}
+
+/// `--laws-only` (the C01 run): only the intrinsic closure laws are demanded of the result, whichever allowed result it is
+pub static LAWS_ONLY: std::sync::atomic::AtomicBool = std::sync::atomic::AtomicBool::new(false);
+
 fn check_result(what: &str, src: &Ontology, scn: &Scenario, line: &Value, conc: &Concretisation, root: u32, leaves: &[u32], d: &mut Vec<String>) {
     let want_ok = line["result"]["ok"].as_bool().unwrap();
     let sub = match call(src, root, leaves) {
@@ -98,6 +155,13 @@ fn check_result(what: &str, src: &Ontology, scn: &Scenario, line: &Value, conc: 
     };
     if !want_ok {
         d.push(format!("{what}: sub_ontology({root}, {:?}) succeeded although a leaf is not below the root (an error is required)", leaves));
+        return;
+    }
+    match catch(|| closure_laws(&sub)) {
+        Ok(l) => d.extend(l.into_iter().map(|x| format!("{what}: sub_ontology({root}, {:?}): {x}", leaves))),
+        Err(p) => d.push(format!("{what}: reading the sub-ontology panicked: {p}")),
+    }
+    if LAWS_ONLY.load(std::sync::atomic::Ordering::Relaxed) {
         return;
     }
     let got = match catch(|| {
@@ -209,6 +273,7 @@ pub fn run(args: &Args) {
     silence_panics();
     let Some(shard) = shard_or_spawn("replay-sub", args) else { return };
     let prop = args.get("prop").unwrap_or("C14").to_string();
+    LAWS_ONLY.store(args.get("laws-only").is_some(), std::sync::atomic::Ordering::Relaxed);
     let (n_all, lines) = read_tlc_lines_sharded(args.req("in"), "REPLAY", shard);
     if n_all == 0 {
         eprintln!("no REPLAY lines");
@@ -244,6 +309,7 @@ pub fn run(args: &Args) {
 pub fn replay_one(v: &Value) -> bool {
     silence_panics();
     let mut st = Stats::default();
+    LAWS_ONLY.store(v["property"].as_str() == Some("C01"), std::sync::atomic::Ordering::Relaxed);
     let out = check_line(&mut st, &v["line"], v["layout"].as_u64().map(|x| x as usize));
     for (c, d) in &out {
         for l in d {
